@@ -548,7 +548,11 @@ class Case:
         st.__init__()
         if prem_idx and e.draw is None and (j // len(PROFILES)) % 3 == 1:
             k = rng.choice(prem_idx)
-            got = self.make_donor(e, k, mod, G)
+            st.active = True      # so that the donor's thunks are tagged with the lemmas that built them (no inner judging: budget 0)
+            try:
+                got = self.make_donor(e, k, mod, G)
+            finally:
+                st.active = False
             if got is not None:
                 donor = (k, got[0], got[2])
                 bound = got[1]
